@@ -647,11 +647,26 @@ def r03_13(chk):
         # stores through the first parameter, before any rebinding of that name
         rebinds = sorted(st.lineno for st in walk_no_nested(node) if isinstance(st, ast.Assign) and any(isinstance(t, ast.Name) and t.id == p0 for t in st.targets))
         bad = []
+        # names that may BE the parameter: `x = data`, `x = ... if ... else data`, `x = data.to_moltype(...)` (returns
+        # its receiver when there is nothing to convert)
+        may_alias = {}
+        for st in walk_no_nested(node):
+            if isinstance(st, ast.Assign) and len(st.targets) == 1 and isinstance(st.targets[0], ast.Name) and st.targets[0].id != p0:
+                arms = [st.value.body, st.value.orelse] if isinstance(st.value, ast.IfExp) else [st.value]
+                for a_ in arms:
+                    if (isinstance(a_, ast.Name) and a_.id == p0) or (isinstance(a_, ast.Call) and isinstance(a_.func, ast.Attribute) and a_.func.attr in ("to_moltype",) and isinstance(a_.func.value, ast.Name) and a_.func.value.id == p0):
+                        may_alias.setdefault(st.targets[0].id, st)
         for st in walk_no_nested(node):
             tg = st.targets if isinstance(st, ast.Assign) else [st.target] if isinstance(st, ast.AugAssign) else []
             for t in tg:
                 if isinstance(t, (ast.Attribute, ast.Subscript)) and isinstance(t.value, ast.Name) and t.value.id == p0 and not any(r <= st.lineno for r in rebinds):
                     bad.append(st)
+                if isinstance(t, (ast.Attribute, ast.Subscript)) and isinstance(t.value, ast.Name) and t.value.id in may_alias:
+                    al = t.value.id
+                    # an identity test that re-binds the alias to a copy before the store clears it
+                    cleared = any(isinstance(i, ast.If) and any(norm(t_) in (f"{al} is {p0}", f"{p0} is {al}") for t_ in ([i.test] + (i.test.values if isinstance(i.test, ast.BoolOp) and isinstance(i.test.op, ast.And) else []))) and any(isinstance(b_, ast.Assign) and norm(b_.targets[0]) == al for b_ in i.body) and i.lineno < st.lineno for i in walk_no_nested(node))
+                    if not cleared:
+                        bad.append(st)
         q = node.name if node.name != "_" else f"{[norm(d).split('.')[0] for d in node.decorator_list][0]}[{norm(node.args.args[0].annotation) if node.args.args[0].annotation is not None else '?'}]"
         chk.decide(not bad, "R03.13", key(m, q, f"`{p0}` not modified"), m.loc(bad[0] if bad else node), "returns the object or a copy", f"`{norm(bad[0]) if bad else ''}` changes the object the caller passed in: Alignment({{'x': aln.named_seqs['a']}}) renames the row inside `aln` as well")
     chk.floor("R03.13", 8, "the _construct_* overloads of the alignment module")
